@@ -177,7 +177,7 @@ def _c14_vm_sample(d, tier, coq, build, want=300):
 
 CONFIG = {
     "properties_file": "Properties/C14.v",
-    "proof_files": ["Base/Prelude.v", "Proofs/Referrers.v", "Proofs/Merge.v", "Proofs/MergeLin.v", "Proofs/MergeThm.v", "Proofs/Delivery.v", "Proofs/Live.v", "Proofs/MergeFine.v", "Proofs/MergeFine2.v", "Proofs/MergeFine3.v"],
+    "proof_files": ["Base/Prelude.v", "Proofs/Referrers.v", "Proofs/MergeBase.v", "Proofs/MergeSA.v", "Proofs/MergeSB.v", "Proofs/MergeSC.v", "Proofs/Merge.v", "Proofs/MergeLin.v", "Proofs/MergeThm.v", "Proofs/Delivery.v", "Proofs/Live.v", "Proofs/MergeFine.v", "Proofs/MergeFineGet.v", "Proofs/MergeFineMain.v", "Proofs/MergeFineAssign.v", "Proofs/MergeFineWake.v", "Proofs/MergeFineRecv.v", "Proofs/MergeFineNotify.v", "Proofs/MergeFineSwap.v", "Proofs/MergeFine2.v", "Proofs/MergeFine3.v"],
     "model_files": ["Generated/GC14.v", "Model/Referrers.v", "Model/Merge.v", "Model/Delivery.v", "Model/Live.v", "Model/MergeFine.v"],
     "extract": "XC14.v",
     "ml_main": "c14_main.ml",
